@@ -126,7 +126,11 @@ type OpCtx struct {
 	ID      int
 	Fault   Fault
 	Fired   bool
-	Crashed bool
+	// Also is a second cluster-side fault of the "kubematch" kind (one request, named by verb and path, rejected once, and
+	// only after the first fault has fired): for the properties that speak about a failure DURING the handling of a failure.
+	Also      Fault
+	AlsoFired bool
+	Crashed   bool
 	KubeN   int
 	WaitN   int
 	StoreN  int // counted store calls (writes, plus reads when Fault.StoreReads)
@@ -365,6 +369,9 @@ func (t *Transport) RoundTrip(req *http.Request) (*http.Response, error) {
 		}
 		if inject {
 			t.Ctx.Fired = true
+		} else if a := t.Ctx.Also; a.Kind == "kubematch" && t.Ctx.Fired && !t.Ctx.AlsoFired && a.Verb == req.Method && a.Path == key {
+			inject, f = true, a
+			t.Ctx.AlsoFired = true
 		}
 	}
 	t.Ctx.mu.Unlock()
